@@ -162,6 +162,8 @@ def _mul(e1, e2):
 
 
 def _conjuncts(c):
+    if z3.is_not(c) and z3.is_not(c.arg(0)):
+        return _conjuncts(c.arg(0).arg(0))
     if z3.is_and(c):
         out = []
         for x in c.children():
@@ -314,6 +316,31 @@ def make_sum(summand_fn, lo, hi, obligations=None, rewriter=None, guard_simplifi
         entries = kept
     else:
         dropped = False
+    # conjuncts of a guard that do not mention the bound variable are the same for every term of the sum: they become an indicator coefficient.
+    # not (D and F) with F free of the bound variable is ite(F, not D, true): two entries
+    def hoist(conjs, coeff, atom):
+        free, dep = [], []
+        for i, cj in enumerate(conjs):
+            if not contains(cj, k):
+                free.append(cj)
+                continue
+            if z3.is_not(cj) and z3.is_and(cj.arg(0)):
+                F = [x for x in cj.arg(0).children() if not contains(x, k)]
+                D = [x for x in cj.arg(0).children() if contains(x, k)]
+                if F and D:
+                    Fc = z3.And(F) if len(F) > 1 else F[0]
+                    Dc = z3.Not(z3.And(D) if len(D) > 1 else D[0])
+                    rest = free + dep + list(conjs[i + 1:])
+                    return (hoist(rest + [Dc], coeff * z3.If(Fc, z3.RealVal(1), z3.RealVal(0)), atom) + hoist(rest, coeff * z3.If(Fc, z3.RealVal(0), z3.RealVal(1)), atom))
+            dep.append(cj)
+        if free:
+            coeff = coeff * z3.If(z3.And(free) if len(free) > 1 else free[0], z3.RealVal(1), z3.RealVal(0))
+        return [(True if not dep else (z3.And(dep) if len(dep) > 1 else dep[0]), coeff, atom)]
+
+    hoisted = []
+    for guard, coeff, atom in entries:
+        hoisted += [(guard, coeff, atom)] if guard is True else hoist(_conjuncts(guard), coeff, atom)
+    entries = hoisted
     # group
     grouped = {}
     order = []
